@@ -284,6 +284,23 @@ def nat_dump_stats(h):
                 dp2 = got2[1][0].descriptor
                 h.check([get(r, names['rh']) for r in dp2['resources']] == [get(r, names['rh']) for r in desc['resources']] and
                         got2[1][1].get('hash') == stats.get('hash'), 'dump:deterministic-hash', cfg, 'same hashes', None)
+            # a second dump of OTHER data into the same place (the re-run of a pipeline): the descriptor found there afterwards
+            # describes the second dump and agrees with its stats
+            if not zipped:
+                other = [[dict(r, id=r['id'] + 1000) for r in rs] + [{'id': 7, 't': 'extra'}] for rs in data]
+                h.run(lambda: run(os.path.join(d, 'e')))
+                got4 = h.run(lambda: Flow(*[[dict(r) for r in rs] for rs in other], dump_to_path(os.path.join(d, 'e'), **opts)).process())
+                if got4[0] == 'ok':
+                    desc4 = json.load(open(os.path.join(d, 'e', 'datapackage.json')))
+                    ok4 = True
+                    for rdesc, rows in zip(desc4['resources'], other):
+                        pth = os.path.join(d, 'e', rdesc['path'])
+                        raw = open(pth, 'rb').read() if os.path.exists(pth) else None
+                        ok4 = ok4 and raw is not None and get(rdesc, names['rh']) == hashlib.md5(raw).hexdigest() and \
+                            (ckind == 'disabled' or get(rdesc, names['rr']) == len(rows))
+                    ok4 = ok4 and (ckind == 'disabled' or get(desc4, names['ph']) == got4[1][1].get('hash'))
+                    h.check(ok4, 'dump:second-dump-into-the-same-directory', cfg, 'descriptor describes the second dump',
+                            [(r['path'], get(r, names['rr'])) for r in desc4['resources']])
             # dumping a package that was loaded from an earlier dump: its descriptors already carry counters; the new ones must
             # describe the new files, not old + new
             if not zipped and ckind not in ('disabled', 'no-bytes') and any(data):
@@ -298,6 +315,9 @@ def nat_dump_stats(h):
                         h.check(get(rdesc, names['rr']) == len(rows), 'dump:redump-rowcount', cfg, len(rows), get(rdesc, names['rr']))
         finally:
             shutil.rmtree(d, ignore_errors=True)
+
+
+nat_dump_stats.shards = 5
 
 
 def nat_dump_dropping_validator(h):
